@@ -10,7 +10,7 @@ From TLV Require Import Base.Shape Base.PyList Base.Tensor Base.Ops Model.Base M
      Proofs.SvdDecompTuckerErr Proofs.SvdDecompTuckerBound Proofs.SvdDecompHosvdBound
      Proofs.SvdDecompPartial Proofs.SvdDecompTuckerGen Proofs.SvdDecompRingErr Proofs.SvdDecompTTMErr
      Proofs.SvdDecompValidate Proofs.SvdDecompRingPartial Proofs.SvdDecompRingErrR
-     Proofs.SvdDecompRankCond Model.SvdDecompSymeig Proofs.SvdDecompSymeig Proofs.SvdDecompSymeigRing Proofs.SvdDecompSymeigEig Model.SvdDecompRand Proofs.SvdDecompRand Proofs.SvdDecompEckartYoung Proofs.SvdDecompTTUpper Proofs.SvdDecompMethodsTucker Proofs.SvdDecompTTRank Proofs.SvdDecompTTMRank Proofs.SvdDecompTuckerRank Proofs.SvdDecompHooiBound Proofs.SvdDecompRingRank Proofs.SvdDecompTuckerSemi Proofs.SvdDecompTuckerSemiEx Proofs.SvdDecompSymeigWide Proofs.SvdDecompRingUpper Proofs.SvdDecompRingCuts Proofs.SvdDecompRingRanks Proofs.SvdDecompRingEx Proofs.SvdDecompTTMBounds Proofs.SvdDecompRingRequested.
+     Proofs.SvdDecompRankCond Model.SvdDecompSymeig Proofs.SvdDecompSymeig Proofs.SvdDecompSymeigRing Proofs.SvdDecompSymeigEig Model.SvdDecompRand Proofs.SvdDecompRand Proofs.SvdDecompEckartYoung Proofs.SvdDecompTTUpper Proofs.SvdDecompMethodsTucker Proofs.SvdDecompTTRank Proofs.SvdDecompTTMRank Proofs.SvdDecompTuckerRank Proofs.SvdDecompHooiBound Proofs.SvdDecompRingRank Proofs.SvdDecompTuckerSemi Proofs.SvdDecompTuckerSemiEx Proofs.SvdDecompSymeigWide Proofs.SvdDecompRingUpper Proofs.SvdDecompRingCuts Proofs.SvdDecompRingRanks Proofs.SvdDecompRingEx Proofs.SvdDecompTTMBounds Proofs.SvdDecompRingRequested Proofs.SvdDecompErrorGen Proofs.SvdDecompErrorMethods Proofs.SvdDecompRingErrGen.
 Import ListNotations.
 
 (* exactness of one TT-SVD step, over every commutative ring: truncating + sign-flipping a
@@ -1458,3 +1458,106 @@ Proof. exact tr_requested_condition_order3_satisfiable. Qed.
 
 Example C09_nonvacuous_tr_requested_ones : tr_requested_condition onesX (inr [2; 1; 2; 2]) 0.
 Proof. exact tr_requested_condition_ones. Qed.
+
+(* the advertised TT-matrix ranks (any carrier, any oracle): with more than one mode pair tensor_train_matrix returns EXACTLY the
+   closed-form TT-SVD bonds on the merged mode sizes in_k * out_k (never more than requested) *)
+Theorem C09_tensor_train_matrix_realised_rank : forall (F : Type) (Op : fops F),
+  ring_theory (f0 Op) (f1 Op) (fadd Op) (fmul Op) (fsub Op) (fopp Op) (@eq F) ->
+  forall (svd : nat -> tensor F -> svdans) (X : tensor F) (rank : rank_spec) (cores : list (tensor F)),
+  ndim X / 2 <> 1 -> tensor_train_matrix Op svd X rank = Ok cores ->
+  match validate_tt_rank (ndim X / 2) rank with
+  | Ok rk => 1 :: ttm_right_bonds cores ++ [1] =
+             realised_tt_rank (zip2 Nat.mul (firstn (ndim X / 2) (shape X)) (skipn (ndim X / 2) (shape X))) rk
+  | Err => False
+  end.
+Proof. exact @tensor_train_matrix_realised_rank. Qed.
+Print Assumptions C09_tensor_train_matrix_realised_rank.
+
+(* ============================================================ error identity under the weakest per-call contract (round 8) ===== *)
+(* step_proj: the KEPT columns of U are orthonormal and U_kept^T M = diag(S_kept) V_kept; U and V may have different numbers of
+   triplets, nothing is said about the discarded part, the answer need not multiply back to the query (an already truncated answer
+   qualifies).  It is implied by the contract of C09_chain_loop_error_identity ... *)
+Theorem C09_step_orth_step_proj : forall (F : Type) (Op : fops F),
+  ring_theory (f0 Op) (f1 Op) (fadd Op) (fmul Op) (fsub Op) (fopp Op) (@eq F) ->
+  forall (M : tensor F) (m n r : nat) (a : svdans), step_orth Op M m n r a -> step_proj Op M m n r a.
+Proof. exact @step_orth_proj. Qed.
+Print Assumptions C09_step_orth_step_proj.
+
+(* ... and suffices for the TT-SVD error identity (every commutative ring, every order, every rank request, every oracle) *)
+Theorem C09_chain_loop_error_identity_gen : forall (F : Type) (Op : fops F),
+  ring_theory (f0 Op) (f1 Op) (fadd Op) (fmul Op) (fsub Op) (fopp Op) (@eq F) ->
+  forall (svd : nat -> tensor F -> svdans) (sizes : list nat) (k : nat) (ranks : list nat) (rk r0 : nat)
+         (W : list F) (cores : list (tensor F)),
+  loop_proj Op svd k sizes ranks rk r0 W ->
+  chain_loop Op svd k sizes ranks rk r0 W = Ok cores ->
+  err2 Op sizes rk r0 W cores = loop_discard Op svd k sizes ranks rk r0 W.
+Proof. exact @chain_loop_error_identity_gen. Qed.
+Print Assumptions C09_chain_loop_error_identity_gen.
+
+Theorem C09_tensor_train_error_identity_gen : forall (F : Type) (Op : fops F),
+  ring_theory (f0 Op) (f1 Op) (fadd Op) (fmul Op) (fsub Op) (fopp Op) (@eq F) ->
+  forall (svd : nat -> tensor F -> svdans) (X : tensor F) (rank : rank_spec) (cores : list (tensor F)),
+  tt_proj Op svd X rank -> tensor_train Op svd X rank = Ok cores -> tt_err2 Op X cores = tt_discard Op svd X rank.
+Proof. exact @tensor_train_error_identity_gen. Qed.
+Print Assumptions C09_tensor_train_error_identity_gen.
+
+(* one randomized_svd call of the model (both branches) meets step_proj: direct branch from Q^T Q = I and the inner SVD's kept triplets
+   (NO range-capture hypothesis); transposed branch additionally (M Q) Q^T = M *)
+Theorem C09_randomized_call_step_proj : forall (M : tensor R) (m n r : nat) (a : svdans),
+  rand_call_proj_ok M m n r a -> step_proj Rops M m n r a.
+Proof. exact rand_call_proj_ok_step_proj. Qed.
+Print Assumptions C09_randomized_call_step_proj.
+
+(* tensor_train(svd='randomized_svd'), every order / rank request: squared error = sum over the steps of |M_k - U_k diag(S_k) V_k|^2 *)
+Theorem C09_tensor_train_randomized_error_identity : forall (svd : nat -> tensor R -> svdans) (X : tensor R) (rank : rank_spec)
+  (cores : list (tensor R)),
+  match validate_tt_rank (ndim X) rank with
+  | Ok rk => loop_pred Rops svd rand_call_proj_ok 0 (shape X) (tl rk) 1 1 (data X)
+  | Err => True
+  end ->
+  tensor_train Rops svd X rank = Ok cores -> tt_err2 Rops X cores = tt_discard Rops svd X rank.
+Proof. exact tensor_train_randomized_error_identity. Qed.
+Print Assumptions C09_tensor_train_randomized_error_identity.
+
+(* one symeig_svd call in the branch dim_1 > dim_2 (U has dim_1 columns, V dim_2 < dim_1 rows) meets step_proj as soon as eigh's W has
+   orthonormal columns and the clipped square roots are non-zero: no eigen-equation, nothing about the discarded part *)
+Theorem C09_symeig_tall_step_proj : forall (M W : tensor R) (s : list R) (m n r : nat),
+  shape M = [m; n] -> shape W = [m; m] -> length s = m -> n < m -> r <= n ->
+  (forall l, l < m -> nth l s 0%R <> 0%R) ->
+  (forall j l, j < m -> l < m -> fsumn Rops m (fun i => (get 0%R W [i; j] * get 0%R W [i; l])%R) = if Nat.eqb j l then 1%R else 0%R) ->
+  step_proj Rops M m n r (symeig_ans Rops M W s).
+Proof. exact symeig_tall_step_proj. Qed.
+Print Assumptions C09_symeig_tall_step_proj.
+
+(* non-vacuity: an ALREADY truncated answer for diag(2, 1) meets step_proj but not step_orth; the symeig answer for (3, 4)^T *)
+Example C09_nonvacuous_step_proj_truncated :
+  step_proj Rops ey_M 2 2 1 (projU, [2%R], projV) /\ ~ step_orth Rops ey_M 2 2 1 (projU, [2%R], projV).
+Proof. exact step_proj_truncated_answer. Qed.
+
+Example C09_nonvacuous_symeig_tall_step_proj : step_proj Rops tallM 2 1 1 (symeig_ans Rops tallM exW [1%R; 1%R]).
+Proof. exact symeig_tall_step_proj_satisfiable. Qed.
+
+(* tensor_ring, every start mode, any commutative ring: the error identity under step_proj for every call of the run (the older
+   contract tr_orth implies tr_proj: C09_tr_orth_tr_proj) *)
+Theorem C09_tensor_ring_error_identity_gen : forall (F : Type) (Op : fops F),
+  ring_theory (f0 Op) (f1 Op) (fadd Op) (fmul Op) (fsub Op) (fopp Op) (@eq F) ->
+  forall (svd : nat -> tensor F -> svdans) (X : tensor F) (rank : rank_spec) (mode : nat) (cores : list (tensor F)),
+  tr_proj Op svd X rank mode -> tensor_ring Op svd X rank mode = Ok cores ->
+  tr_err2 Op X cores = tr_discard Op svd X rank mode.
+Proof. exact @tensor_ring_error_identity_gen. Qed.
+Print Assumptions C09_tensor_ring_error_identity_gen.
+
+Theorem C09_tr_orth_tr_proj : forall (F : Type) (Op : fops F),
+  ring_theory (f0 Op) (f1 Op) (fadd Op) (fmul Op) (fsub Op) (fopp Op) (@eq F) ->
+  forall (svd : nat -> tensor F -> svdans) (X : tensor F) (rank : rank_spec) (mode : nat),
+  tr_orth Op svd X rank mode -> tr_proj Op svd X rank mode.
+Proof. exact @tr_orth_proj. Qed.
+Print Assumptions C09_tr_orth_tr_proj.
+
+(* tensor_ring(svd='randomized_svd'), every start mode / order / request: squared error = sum over the calls of |M_k - U_k diag(S_k) V_k|^2 *)
+Theorem C09_tensor_ring_randomized_error_identity : forall (svd : nat -> tensor R -> svdans) (X : tensor R) (rank : rank_spec)
+  (mode : nat) (cores : list (tensor R)),
+  tr_pred Rops svd rand_call_proj_ok X rank mode ->
+  tensor_ring Rops svd X rank mode = Ok cores -> tr_err2 Rops X cores = tr_discard Rops svd X rank mode.
+Proof. exact tensor_ring_randomized_error_identity. Qed.
+Print Assumptions C09_tensor_ring_randomized_error_identity.
